@@ -333,11 +333,27 @@ def run_utmp_case(case, acc, tmpdir):
     data = b"".join(pack_utmp(r) for r in case["recs"])
     if case["trunc"]:
         data += b"\x07" * case["trunc"]       # a truncated trailing record
-    with open(path, "wb") as f:
+    # the login-records file is *replaced* between cases the way logrotate / an atomic writer does it (new inode under the
+    # same name, or removed and re-created); the path is announced to the C library only once per process - utmpname()
+    # itself closes the stream, which would hide a stream kept open across calls
+    tmpf = path + ".new"
+    with open(tmpf, "wb") as f:
         f.write(data)
+    style = len(case["recs"]) % 3
+    if style == 0 and os.path.exists(path):
+        os.unlink(path)
+    if style == 2 and os.path.exists(path):
+        with open(path, "wb") as f:             # rewritten in place
+            f.write(data)
+        os.unlink(tmpf)
+    else:
+        os.replace(tmpf, path)
     harness.mark_current(case)
-    libc.utmpname(path.encode())
+    if env.get("utmp_installed") != path:
+        libc.utmpname(path.encode())
+        env["utmp_installed"] = path
     viols = []
+    fds0 = len(os.listdir("/proc/self/fd"))
     try:
         got = [tuple(u) for u in ps.users()]
     except BaseException as e:  # noqa: BLE001
@@ -359,6 +375,10 @@ def run_utmp_case(case, acc, tmpdir):
                     viols.append((mech, f"got {g!r} want {w_!r}"))
                     break
     nontriv = any(len(cstr(_b(r[k]), n)) == n for r in case["recs"] for k, n in (("user", 32), ("line", 32), ("host", 256)))
+    fds1 = len(os.listdir("/proc/self/fd"))
+    acc.count("descriptor_counts_compared")
+    if fds1 > fds0:
+        viols.append(("descriptor_left_open:users", f"{fds1 - fds0} more open descriptor(s) after users() than before"))
     acc.case(case, nontriv, viols)
     harness.mark_current(None)
 
@@ -457,6 +477,7 @@ def run_mounts_case(case, acc, tmpdir):
             f.write("\t" + t + "\n")
     harness.mark_current(case)
     viols = []
+    fds0 = len(os.listdir("/proc/self/fd"))
     want, uncertain = expected_mounts(case)
     nonutf = any(_has_nonutf8(t) or _has_nonutf8(o) for _, _, t, o in want)
     try:
@@ -510,6 +531,12 @@ def run_mounts_case(case, acc, tmpdir):
         if not ok:
             viols.append(("disk_partitions_filter_wrong", f"all={case['all']} fstypes={sorted(fst)} got {gotp[:4]!r} want {exp[:4]!r} (n {len(gotp)}/{len(exp)})"))
     nontriv = any(any(c in _b(e[k]) for c in b" \t\n\\") for e in case["entries"] for k in ("dev", "dir", "type", "opts")) or uncertain
+    fds1 = len(os.listdir("/proc/self/fd"))
+    acc.count("descriptor_counts_compared")
+    if fds1 > fds0:
+        # every failing call would leave one more stream open: sooner or later *any* call fails with EMFILE
+        viols.append(("descriptor_left_open:disk_partitions", f"{fds1 - fds0} more open descriptor(s) after disk_partitions() than before "
+                                                              f"(outcome {res[0]})"))
     acc.case(case, nontriv, viols)
     harness.mark_current(None)
 
